@@ -199,7 +199,7 @@ def c_auth(a):
 
 
 def c_accept(acc):
-    return out_list(sorted(hs(v) + ":" + repr(float(q)) for v, q in acc))
+    return out_list(sorted(hs(v) + ":" + repr(float(q) + 0.0) for v, q in acc))
 
 
 def c_ccval(v):
@@ -376,7 +376,7 @@ EPOCH_ORD = 1
 
 
 def fq(x):
-    return repr(float(x))
+    return repr(float(x) + 0.0)  # -0.0 (from `q=-0.0`) and 0.0 are the same quality
 
 
 def c_accept_use(acc, offers):
@@ -428,10 +428,12 @@ def group_pairs(out):
 
 
 def request_attrs():
+    """every public name of a live Request object (the same enumeration Gen/RequestSurface.lean is
+    generated from, so a newly added attribute is exercised here and shows up there as uncovered)"""
     from werkzeug.wrappers import Request
 
     names = []
-    for n in sorted(dir(Request)):
+    for n in sorted(dir(Request(mk_environ({})))):
         if n.startswith("_") or n in SKIP_ATTRS:
             continue
         names.append(n)
@@ -526,6 +528,315 @@ def canon_value(pname, v):
     raise AssertionError(pname)
 
 
+
+# ---- the body-parsing attributes under hostile Content-Type x body (family of seeded change C07-c2) ----
+
+MIMETYPES = ["application/x-www-form-urlencoded", "application/x-www-form-urlencoded", "multipart/form-data", "multipart/form-data", "application/json", "application/ld+json",
+             "text/plain", "application/x-url-encoded", "APPLICATION/X-WWW-FORM-URLENCODED", "Multipart/Form-Data", "application/JSON", " multipart/form-data", "multipart/form-data ",
+             "multipart/mixed", "", "application/x-www-form-urlencoded\xa0", "*/*", "application/+json", "a/b", "application/x-www-form-urlencoded,", "multipart/form-data\xe9"]
+CHARSETS = ["bogus", "", "utf-8", "UTF-8", "latin-1", "iso-8859-1", "utf-16", "utf-7", "hex", "rot13", "rot_13", "idna", "punycode", "undefined", "base64", "\xff", "\xe9", "utf-8\xa0",
+            "us-ascii", "ascii", "x" * 40, "unicode_escape", "mbcs", "utf_8_sig", "zlib", "None", "0", "utf-8;", "utf 8", "*", "%22", "utf-32", "cp65001", "ansi_x3.4-1968"]
+BOUNDARIES = ["x", "x", "XyZ", "", "\xe9", "\xff", "a b", "a=1&b", "-", "--", "x" * 70, "x" * 300, "\\", "a;b", "%41", "*", "'", "x\xa0", "(", "[", ".", "^$"]
+
+
+def ct_param(rng):
+    r = rng.random()
+    if r < 0.45:
+        c = rng.choice(CHARSETS)
+        k = rng.random()
+        if k < 0.5:
+            return "charset=" + c
+        if k < 0.75:
+            return 'charset="' + c + '"'
+        if k < 0.85:
+            return rng.choice(["charset*=utf-8''%C3%BF", "charset*=utf-8''" + c, "charset*=''" + c, "charset*=bogus''x", "charset*0=ut; charset*1=f-8", "charset*0*=utf-8''b; charset*1=ogus", "Charset=" + c, "CHARSET=" + c])
+        return "charset = " + c
+    if r < 0.85:
+        b = rng.choice(BOUNDARIES)
+        k = rng.random()
+        if k < 0.55:
+            return "boundary=" + b
+        if k < 0.85:
+            return 'boundary="' + b + '"'
+        return rng.choice(["boundary*=utf-8''%C3%BF", "boundary*=utf-8''x", "boundary*0=x; boundary*1=y", "BOUNDARY=" + b, "boundary", "boundary=", "boundary=x; boundary=y"])
+    return rng.choice(["q=0.5", "k=v", "*=x", "*0=x", "k*=utf-8''%ff", 'k="', "k=\\", ";", "=", "version=1", "profile=\"x\"", hostile(rng, 3)])
+
+
+def content_type_value(rng):
+    mt = rng.choice(MIMETYPES)
+    ps = [ct_param(rng) for _ in range(rng.choice([0, 1, 1, 1, 2, 3]))]
+    return rng.choice(["; ", ";", " ; ", ";  "]).join([mt] + ps)
+
+
+def declared_boundary(ct):
+    """what a well-behaved client would use as delimiter for this Content-Type (best effort)"""
+    import re
+
+    m = re.search(r'boundary="?([^";]*)', ct, re.I)
+    return (m.group(1) if m and m.group(1) else "x").encode("latin-1", "replace")
+
+
+URLENC_BODIES = [b"a=1&b=2", b"a=\xff", b"%ff=%", b"&&==&", b"a=b&name=%E4%F6%FC&x=\xe4", b"\xff\xfe a\x00=\x00", b"a=" + b"x" * 300, b"=", b"", b"a=1;b=2", "é=ü&€".encode(),
+                b"a=1&a=2&b", b"+=+&%2B=%2b", b"a=%", b"%=%%", b"\xc3", b"a\n=b\r\n", b"a=b" + b"&" * 50]
+JSON_BODIES = [b"{}", b'{"a": 1}', b"[" * 40 + b"]" * 40, b"[" * 60, b"\xff", b"", b"nul", b'"\\ud800"', b"1e999", b"NaN", b"\xff\xfe{\x00}\x00", b"\xef\xbb\xbf{}", b"[1,]", b'{"a":}', b" ", b"0" * 50,
+               b'"' + b"\\" * 31, b"{" * 30]
+PART_HEADERS = [
+    b'Content-Disposition: form-data; name="a"', b'Content-Disposition: form-data; name="f"; filename="x.txt"', b"Content-Disposition: form-data; name=a", b"Content-Disposition: form-data",
+    b'Content-Disposition: form-data; name="a"; filename=""', b"Content-Disposition: attachment", b"content-disposition: FORM-DATA; NAME=a", b'Content-Disposition: form-data; name="\xff"',
+    b'Content-Disposition: form-data; name="a\\"b"', b'Content-Disposition: form-data; name="a', b"Content-Disposition: form-data; name*=utf-8''%C3%BF", b"Content-Disposition: form-data; name*0=a; name*1=b",
+    b'Content-Disposition: form-data; name="f"; filename="\xe9\xff.txt"', b"Content-Disposition: ;", b"Content-Disposition", b"X: y", b": x", b"Content-Disposition: form-data; name=\xe9",
+]
+PART_CTYPES = [None, None, b"text/plain", b"text/plain; charset=utf-8", b"text/plain; charset=bogus", b'text/plain; charset=""', b"text/plain; charset=hex", b"text/plain; charset=\xff", b"text/plain; charset=ISO-8859-1",
+               b"text/plain; charset=utf-16", b"text/plain; charset=US-ASCII", b"text/plain; charset*=utf-8''rot13", b"; charset=rot13", b"text/plain; charset=utf-8; charset=hex", b"application/octet-stream",
+               b"text/plain; charset=idna", b"text/plain; charset=undefined"]
+PART_EXTRA = [None, None, None, b"Content-Length: 3", b"Content-Length: x", b"Content-Length: -1", b"Content-Length: 99999999999999999999", b"Content-Transfer-Encoding: base64", b"X-Long: " + b"a" * 200, b" folded", b"\xff: \xfe"]
+PART_DATA = [b"v", b"", b"\xff\xfe", b"a\r\nb", "é€".encode(), b"x" * 200, b"--", b"\r\n", b"\x00", b"a=1&b=2"]
+
+
+def multipart_body(rng, bnd, valid=False):
+    nl = rng.choice([b"\r\n", b"\r\n", b"\r\n", b"\n", b"\r"])
+    out = [rng.choice([b"", b"", b"preamble" + nl, nl])]
+    for _ in range(rng.choice([0, 1, 1, 2, 3])):
+        out.append(b"--" + bnd + rng.choice([b"", b"", b" ", b"\t"]) + nl)
+        hdrs = [rng.choice(PART_HEADERS[:2] if valid and rng.random() < 0.7 else PART_HEADERS)]
+        ct = rng.choice(PART_CTYPES)
+        if ct is not None:
+            hdrs.append(b"Content-Type: " + ct)
+        ex = rng.choice(PART_EXTRA)
+        if ex is not None:
+            hdrs.append(ex)
+        rng.shuffle(hdrs)
+        out.append(nl.join(hdrs) + nl + nl + rng.choice(PART_DATA) + nl)
+    r = rng.random()
+    if r < (0.95 if valid else 0.75):
+        out.append(b"--" + bnd + b"--" + rng.choice([b"", nl, nl + b"epilogue"]))
+    elif r < 0.85:
+        out.append(b"--" + bnd)
+    return b"".join(out)
+
+
+BODY_ATTRS = ["form", "files", "values", "data", "get_data", "json", "get_json", "stream", "want_form_data_parsed"]
+BODY_SEQ_EXTRA = ["stream.read", "get_data_text", "get_json_force", "is_json", "mimetype_params", "content_length", "close", "args", "input_stream"]
+
+
+def body_case(rng):
+    near = rng.random() < 0.6
+    if near:
+        # near-valid: a real form / JSON mimetype (sometimes in another case), a usable boundary, the
+        # matching body, and one or two hostile parameters around them
+        mt = rng.choice(["application/x-www-form-urlencoded", "multipart/form-data", "multipart/form-data", "application/json"])
+        if rng.random() < 0.2:
+            mt = rng.choice([mt.upper(), mt.title(), " " + mt, mt + " "])
+        ps = [ct_param(rng) for _ in range(rng.choice([0, 1, 1, 2]))]
+        if "multipart" in mt.lower():
+            ps.insert(rng.randrange(len(ps) + 1), rng.choice(["boundary=x", "boundary=XyZ", 'boundary="a b"', "boundary=----w3b", 'boundary="x"', "Boundary=x"]))
+        ct = rng.choice(["; ", ";", " ; "]).join([mt] + ps)
+    else:
+        ct = content_type_value(rng) if rng.random() < 0.9 else hostile_any(rng)
+    mt = ct.split(";")[0].strip().lower()
+    r = rng.random()
+    if "multipart" in mt and r < 0.9:
+        body = multipart_body(rng, declared_boundary(ct), valid=near)
+    elif "json" in mt and r < 0.9:
+        body = rng.choice(JSON_BODIES)
+    elif r < 0.9:
+        body = rng.choice(URLENC_BODIES)
+    else:
+        body = rng.choice(JSON_BODIES + [multipart_body(rng, b"x")])
+    k = rng.random()
+    if k < (0.85 if near else 0.55):
+        cl = str(len(body))
+    elif k < 0.88:
+        cl = None
+    elif k < 0.92:
+        cl = str(max(0, len(body) - rng.choice([1, 2, 5])))
+    elif k < 0.96:
+        cl = str(len(body) + rng.choice([1, 5, 1000]))
+    else:
+        cl = rng.choice(["x", "-1", " 7", "1_0", "99999999999999999999", "", "+3", "0", "\xb2", "7 ", "0x10"])
+    seq = [rng.choice(BODY_ATTRS)]
+    if rng.random() < 0.3:
+        seq += [rng.choice(BODY_ATTRS + BODY_SEQ_EXTRA) for _ in range(rng.choice([1, 1, 2]))]
+    case = {"k": "b", "seq": seq, "ct": None if rng.random() < 0.03 else hs(ct), "body": body.hex() or "-", "cl": None if cl is None else hs(cl),
+            "method": rng.choice(["POST", "POST", "POST", "PUT", "GET", "PATCH", "DELETE"]), "qs": hs(rng.choice(["", "", "a=1", "a=\xff&b=%ff", "x"]))}
+    if rng.random() < 0.05:
+        case["te"] = hs(rng.choice(["chunked", "Chunked", "gzip", "chunked, gzip"]))
+    if rng.random() < 0.05:
+        case["maxcl"] = rng.choice([0, 5, 100])
+    return case
+
+
+def unhexb(x):
+    return b"" if x in ("-", "") else bytes.fromhex(x)
+
+
+def body_environ(case):
+    e = dict(BASE_ENV)
+    body = unhexb(case["body"])
+    e["wsgi.input"] = io.BytesIO(body)
+    e["wsgi.errors"] = io.StringIO()
+    e["REQUEST_METHOD"] = case["method"]
+    e["QUERY_STRING"] = unhs(case["qs"])
+    if case["ct"] is not None:
+        e["CONTENT_TYPE"] = unhs(case["ct"])
+    if case["cl"] is not None:
+        e["CONTENT_LENGTH"] = unhs(case["cl"])
+    if case.get("te") is not None:
+        e["HTTP_TRANSFER_ENCODING"] = unhs(case["te"])
+    return e
+
+
+def c_fields(md):
+    return out_list(opt(hs, k) + ":" + hs(v) for k, v in md.items(multi=True))
+
+
+def c_files(md):
+    out = []
+    for k, f in md.items(multi=True):
+        if getattr(f.stream, "closed", False):
+            # the application closed the request before (`close` earlier in the sequence): reading a closed
+            # upload is its own error, not the parser's
+            out.append(opt(hs, k) + ":" + hs(f.filename or "") + ":closed")
+            continue
+        f.stream.seek(0)
+        out.append(opt(hs, k) + ":" + hs(f.filename or "") + ":" + (f.stream.read().hex() or "-"))
+    return out_list(out)
+
+
+def access(r, a):
+    """one access of the application; canonical text of what it saw"""
+    if a == "form":
+        return "V:" + c_fields(r.form)
+    if a == "files":
+        return "V:" + c_files(r.files)
+    if a == "values":
+        list(r.values.items(multi=True))
+        return "ok"
+    if a == "data":
+        assert isinstance(r.data, bytes)
+        return "ok"
+    if a == "get_data":
+        assert isinstance(r.get_data(), bytes)
+        return "ok"
+    if a == "get_data_text":
+        assert isinstance(r.get_data(as_text=True), str)
+        return "ok"
+    if a == "json":
+        r.json  # noqa: B018
+        return "ok"
+    if a == "get_json":
+        r.get_json(silent=True)
+        return "ok"
+    if a == "get_json_force":
+        r.get_json(force=True, silent=True)
+        return "ok"
+    if a == "stream":
+        r.stream  # noqa: B018
+        return "ok"
+    if a == "stream.read":
+        r.stream.read()
+        return "ok"
+    if a == "close":
+        r.close()
+        return "ok"
+    v = getattr(r, a)
+    if a == "args":
+        list(v.items(multi=True))
+    return "ok"
+
+
+def run_body(case):
+    from werkzeug.exceptions import HTTPException
+    from werkzeug.wrappers import Request
+
+    class R(Request):
+        pass
+
+    if case.get("maxcl") is not None:
+        R.max_content_length = case["maxcl"]
+    r = R(body_environ(case))
+    outs = []
+    for a in case["seq"]:
+        try:
+            outs.append(access(r, a))
+        except HTTPException as e:
+            outs.append(f"HTTP:{e.code}")
+    return ";".join(outs)
+
+
+def py_content_length(cl, te):
+    """sansio.utils.get_content_length, restated (what the limited stream is set up with)"""
+    import re
+
+    if te == "chunked" or cl is None:
+        return None
+    t = cl.strip()
+    if re.fullmatch(r"-?\d+", t, re.A):
+        return max(0, int(t))
+    return 0
+
+
+def json_outcome(data):
+    import json
+
+    try:
+        json.loads(data)
+        return "ok"
+    except Exception as e:  # noqa: BLE001 - the class is the observation
+        return "json.JSONDecodeError" if type(e).__name__ == "JSONDecodeError" else type(e).__name__
+
+
+HTTP_OF = {"RequestEntityTooLarge": 413, "ClientDisconnected": 400, "BadRequest": 400, "UnsupportedMediaType": 415, "SecurityError": 400}
+
+# ---- every compiled regex of the request-parsing modules, timed on its own repetition family ----
+
+REGEX_MODULES = [
+    "werkzeug.http", "werkzeug.sansio.http", "werkzeug.sansio.request", "werkzeug.sansio.utils", "werkzeug.sansio.multipart", "werkzeug.wrappers.request",
+    "werkzeug.datastructures.auth", "werkzeug.datastructures.accept", "werkzeug.datastructures.structures", "werkzeug.datastructures.headers",
+    "werkzeug.datastructures.etag", "werkzeug.datastructures.range", "werkzeug.datastructures.cache_control", "werkzeug.datastructures.csp",
+    "werkzeug.urls", "werkzeug._internal", "werkzeug.formparser", "werkzeug.user_agent", "werkzeug.wsgi", "werkzeug.utils",
+]
+
+
+def live_regexes():
+    import importlib
+    import re
+
+    out = []
+    for modname in REGEX_MODULES:
+        m = importlib.import_module(modname)
+        for n in sorted(vars(m)):
+            if isinstance(getattr(m, n), re.Pattern):
+                out.append((modname, n))
+    return out
+
+
+def regex_case(rng, regs):
+    import importlib
+
+    mod, name = rng.choice(regs)
+    rx = getattr(importlib.import_module(mod), name)
+    pat = rx.pattern if isinstance(rx.pattern, str) else rx.pattern.decode("latin-1")
+    alphabet = sorted({c for c in pat if 0x20 <= ord(c) < 0x7F} | set('a\\" ;=,0'))
+    n = rng.randrange(20, 70)
+    tok = rng.choice(alphabet) + (rng.choice(alphabet) if rng.random() < 0.5 else "")
+    s = "".join(rng.choice(alphabet) for _ in range(rng.randrange(0, 3))) + tok * n + "".join(rng.choice(alphabet + ["\xe9", "\n"]) for _ in range(rng.randrange(0, 3)))
+    return {"k": "r", "mod": mod, "name": name, "s": hs(s)}
+
+
+def run_regex(case):
+    import importlib
+
+    rx = getattr(importlib.import_module(case["mod"]), case["name"])
+    s = unhs(case["s"])
+    if isinstance(rx.pattern, bytes):
+        s = s.encode("latin-1", "replace")
+    rx.match(s), rx.search(s), rx.fullmatch(s)
+    sum(1 for _ in rx.finditer(s))
+    rx.sub(s[:0], s)
+    return "ok"
+
+
 class Hostile(Stream):
     name = "hostile"
 
@@ -567,6 +878,8 @@ class Hostile(Stream):
             ("if_range", "Fri, 31 Dec 9999 23:59:59 -0100"), ("if_range", "Mon, 01 Jan 0001 00:00:00 +0100"), ("if_range", '"Fri, 31 Dec 9999 23:59:59 -0100"'),
             ("accept_mime", 'text;profile="https://example.com/schema"'), ("accept_mime", "json;version=1/2"), ("accept_mime", "text/html, x;u=/;q=0.5"), ("accept_mime", "*;p=/"),
             ("accept_mime", 'a;v="b;c/d", text/*'), ("accept", "gzip;v=1/2"), ("accept_lang", "en;v=1/2"), ("accept_charset", "utf-8;v=1/2"),
+            # int(): the ASCII separators U+001C..U+001F are white space for str.strip() but not for int()
+            ("age", "5\x1f"), ("age", "\x1c5"), ("age", " 5\x1c"), ("age", "5\x85"), ("age", "\xa05\x0b"), ("cc_request", "max-age=5\x1f"), ("cc_request", "max-age=\x1e5"),
             ("date", "1 Jan 2026 0:0 +2500"), ("date", "\xe9"), ("if_range", '"x"'), ("if_range", "W/"), ("cookie", 'a="\\'), ("cookie", ";;="), ("unquote", '"'), ("unquote", '"\\"'),
         ]]
         + [{"k": "a", "attr": a, "env": {v: hs(s)}} for a, v, s in [
@@ -585,7 +898,7 @@ class Hostile(Stream):
             ("accept_mimetypes", "HTTP_ACCEPT", "text/html;*0=x"), ("date", "HTTP_DATE", "1 Jan 99999999999999999999 0:0:0"),
             ("if_modified_since", "HTTP_IF_MODIFIED_SINCE", "1 Jan 2026 99999999999999999999999:0:0"), ("if_range", "HTTP_IF_RANGE", "Thu, 01 Jan 2026 00:00:00 +99999999999999999999"),
             ("content_length", "CONTENT_LENGTH", "-5"), ("content_length", "CONTENT_LENGTH", "\xb2"), ("content_length", "CONTENT_LENGTH", "1_0"), ("max_forwards", "HTTP_MAX_FORWARDS", "x"),
-            ("max_forwards", "HTTP_MAX_FORWARDS", " 1_0 "), ("max_forwards", "HTTP_MAX_FORWARDS", "-\xa07"), ("content_length", "HTTP_TRANSFER_ENCODING", "chunked"),
+            ("max_forwards", "HTTP_MAX_FORWARDS", " 1_0 "), ("max_forwards", "HTTP_MAX_FORWARDS", "7\x1f"), ("max_forwards", "HTTP_MAX_FORWARDS", "\x1c7"), ("max_forwards", "HTTP_MAX_FORWARDS", "-\xa07"), ("content_length", "HTTP_TRANSFER_ENCODING", "chunked"),
             ("content_length", "HTTP_TRANSFER_ENCODING", "Chunked"), ("content_length", "CONTENT_LENGTH", " 12 "), ("content_length", "CONTENT_LENGTH", "+3"), ("form", "CONTENT_TYPE", "multipart/form-data"), ("form", "CONTENT_TYPE", "multipart/form-data; boundary=\xe9"),
             ("form", "CONTENT_TYPE", 'multipart/form-data; boundary="'), ("files", "CONTENT_TYPE", "multipart/form-data; boundary=a=1&b"), ("json", "CONTENT_TYPE", "application/json"),
             ("data", "CONTENT_TYPE", "application/x-www-form-urlencoded; charset=\xff"), ("form", "CONTENT_LENGTH", "99999999999999999999"), ("get_json", "CONTENT_TYPE", "application/json; charset=x"),
@@ -596,14 +909,41 @@ class Hostile(Stream):
             ("\xe9.example", ["\xe9.example"]), ("a..b", ["a..b"]), ("[::1]:8080", ["[::1]"]), ("[::1", ["[::1"]), ("", ["localhost"]), (None, ["localhost"]), (None, ["localhost:8080"]),
             ("LOCALHOST", ["localhost"]), ("a" * 64 + ".x", [".x"]), ("x:y:z", ["x"]), ("localhost", []),
         ]]
+
+        + [{"k": "b", "seq": seq, "ct": None if ct is None else hs(ct), "body": body.hex() or "-", "cl": hs(str(len(body))) if cl == "=" else (None if cl is None else hs(cl)), "method": "POST", "qs": hs("")}
+           for seq, ct, body, cl in [
+            # family of seeded change C07-c2: a client-chosen codec name in the Content-Type of a form body
+            (["form"], "application/x-www-form-urlencoded; charset=bogus", b"a=b&name=%E4%F6%FC&x=\xe4", "="), (["files"], 'application/x-www-form-urlencoded; charset=""', b"a=b", "="),
+            (["values"], "application/x-www-form-urlencoded; charset=hex", b"a=b", "="), (["data"], "application/x-www-form-urlencoded; charset=rot13", b"a=b", "="),
+            (["form"], "application/x-www-form-urlencoded; charset*=utf-8''%C3%BF", b"a=b", "="), (["form"], "application/x-www-form-urlencoded; charset=utf-16", b"a=\xff", "="),
+            (["form"], "application/x-www-form-urlencoded; charset=\xff", b"a=b", "="), (["form"], "APPLICATION/X-WWW-FORM-URLENCODED; CHARSET=undefined", b"a=b", "="),
+            (["form"], "multipart/form-data; boundary=x", b'--x\r\nContent-Disposition: form-data; name="a"\r\nContent-Type: text/plain; charset=bogus\r\n\r\n\xff\r\n--x--', "="),
+            (["form"], "multipart/form-data; boundary=x", b'--x\r\nContent-Disposition: form-data; name="a"\r\nContent-Type: text/plain; charset=hex\r\n\r\nv\r\n--x--', "="),
+            (["form", "files"], "multipart/form-data; boundary=x; charset=bogus", b'--x\r\nContent-Disposition: form-data; name="f"; filename="a.txt"\r\n\r\nv\r\n--x--', "="),
+            (["form"], "multipart/form-data; boundary=\xe9", b"--\xe9--", "="), (["form"], "multipart/form-data", b"--x--", "="), (["files"], 'multipart/form-data; boundary=""', b"", "="),
+            (["form"], "multipart/form-data; boundary=x", b"--x\r\nContent-Disposition: form-data\r\n\r\nv\r\n--x--", "="), (["form"], "multipart/form-data; boundary=x", b"--x\r\nX\r\n\r\nv\r\n--x--", "="),
+            (["form"], "multipart/form-data; boundary=x", b"--x\r\n\xff: \xfe\r\n\r\nv\r\n--x--", "="), (["form"], "multipart/form-data; boundary=x", b'--x\r\nContent-Disposition: form-data; name="a"\r\n\r\nv', "="),
+            (["form"], "multipart/form-data; boundary=" + "x" * 300, b"--" + b"x" * 300 + b"--", "="), (["data"], "multipart/form-data; boundary=x", b"--x--", "1000"),
+            (["json"], "application/json", b"{}", "="), (["json"], "application/json; charset=bogus", b"\xff", "="), (["json"], "text/plain", b"{}", "="), (["get_json"], "application/json", b"[1,]", "="),
+            (["json"], "application/ld+json", b"[" * 60, "="), (["json"], "application/json", b"\xff\xfe{\x00}\x00", "="), (["get_json", "json"], "application/json", b"nul", "="),
+            (["form"], "application/x-www-form-urlencoded", b"a=1", None), (["form"], "application/x-www-form-urlencoded", b"a=1", "x"), (["form"], "application/x-www-form-urlencoded", b"a=1", "99999999999999999999"),
+            (["form"], "application/x-www-form-urlencoded", b"a=1", "1"), (["data", "form"], "application/x-www-form-urlencoded", b"a=1", "="), (["get_data", "form", "data"], "application/x-www-form-urlencoded", b"a=1&b=\xff", "="),
+            (["stream.read", "form"], "application/x-www-form-urlencoded", b"a=1", "="), (["form"], None, b"a=1", "="), (["form"], "", b"a=1", "="), (["values", "files", "close"], "multipart/form-data; boundary=x", b"--x--", "="),
+            (["get_data_text"], "text/plain; charset=bogus", b"\xff", "="), (["form"], "application/x-www-form-urlencoded", b"a=" + b"x" * 600000, "="),
+        ]]
     )
 
     def cases(self, rng, tier):
         attrs = request_attrs()
         hot_attrs = sorted(ATTR_VAR)
+        regs = live_regexes()
         while True:
             r = rng.random()
-            if r < 0.55:
+            if r < 0.2:
+                yield body_case(rng)
+            elif r < 0.26:
+                yield regex_case(rng, regs)
+            elif r < 0.62:
                 name = rng.choice(PARSERS)
                 yield {"k": "p", "name": name, "s": hs(hostile_for(name, rng))}
             else:
@@ -631,6 +971,10 @@ class Hostile(Stream):
         try:
             if case["k"] == "p":
                 return timed(lambda: run_parser(case["name"], unhs(case["s"])))
+            if case["k"] == "b":
+                return timed(lambda: run_body(case))
+            if case["k"] == "r":
+                return timed(lambda: run_regex(case))
             return timed(lambda: run_attr(case["attr"], case["env"], case.get("trusted")))
         except HTTPException as e:
             return f"HTTP:{e.code}"
@@ -645,6 +989,10 @@ class Hostile(Stream):
         if case["k"] == "p":
             cmd = PARSER_CMD.get(case["name"])
             return None if cmd is None else line(cmd, case["s"])
+        if case["k"] == "r":
+            return None
+        if case["k"] == "b":
+            return self.body_line(case)
         env = case["env"]
         attr = case["attr"]
         import re
@@ -709,7 +1057,35 @@ class Hostile(Stream):
             return line(PARSER_CMD[pa[1]], env[pa[0]])
         return None
 
+
+    @staticmethod
+    def body_line(case):
+        """the first access of a body attribute on a fresh request has a model counterpart"""
+        if len(case["seq"]) != 1 or case["seq"][0] not in BODY_ATTRS:
+            return None
+        attr = case["seq"][0]
+        body = unhexb(case["body"])
+        cl = None if case["cl"] is None else unhs(case["cl"])
+        te = None if case.get("te") is None else unhs(case["te"])
+        n = py_content_length(cl, te)
+        delivered, disc = (b"", False) if n is None else (body[:n], n > len(body))
+        ct = None if case["ct"] is None else unhs(case["ct"])
+        if ct is not None and "multipart/form-data" in ct.lower() and (b"*" in body or len(delivered) > 65536):
+            return None  # RFC 2231 part parameters are outside C01's option-header model
+        if any(ord(c) > 0xFF for c in unhs(case["qs"])):
+            return None
+        jl = json_outcome(delivered) if attr in ("json", "get_json") else "ok"
+        return line("req.body", attr, hs(case["method"]), opt(hs, ct), opt(hs, cl), opt(hs, te), case["qs"], delivered.hex() or "-", b01(disc), jl,
+                    "~" if case.get("maxcl") is None else case["maxcl"])
+
     def canon_model(self, case, out):
+        if case["k"] == "b":
+            if out.startswith("EXC:") and out[4:] in HTTP_OF:
+                return f"HTTP:{HTTP_OF[out[4:]]}"
+            if out.startswith(("EXC:", "BAD", "UNKNOWN")) or out == "ok":
+                return out
+            fields, _, files = out.partition("|")
+            return "V:" + (fields if case["seq"][0] == "form" else files)
         if case["k"] == "p":
             name = case["name"]
         elif case["attr"] in ("max_forwards", "content_length", "access_control_request_headers", "if_range"):
@@ -748,7 +1124,7 @@ class Hostile(Stream):
             items = []
             for it in out.split(","):
                 v, q = it.split(":")
-                items.append(v + ":" + repr(float(unhs(q))))
+                items.append(v + ":" + repr(float(unhs(q)) + 0.0))
             return pre + ",".join(sorted(items))
         if name == "etags":
             parts = dict(x.split("=", 1) for x in out.split(";"))
@@ -786,30 +1162,75 @@ class Hostile(Stream):
 
     @staticmethod
     def label(case):
+        if case["k"] == "b":
+            return "Request." + " -> ".join(case["seq"]) + f" (Content-Type {None if case['ct'] is None else unhs(case['ct'])!r})"
+        if case["k"] == "r":
+            return f"regex {case['mod']}.{case['name']}"
         return f"parser {case['name']}" if case["k"] == "p" else f"Request.{case['attr']}"
 
     def finding_key(self, case, what):
-        if what.endswith("raised ValueError") and case["k"] == "a" and case["attr"] in URL_ATTRS and "HTTP_HOST" in case["env"]:
-            # F07d: caused by the Host value - the same request with a well-formed Host does not raise
-            env = dict(case["env"])
-            env["HTTP_HOST"] = hs("localhost")
-            try:
-                run_attr(case["attr"], env, case.get("trusted"))
-            except Exception:  # noqa: BLE001
+        """F07d, narrowly: one of the five URL attributes; the class is exactly ValueError; it is
+        raised inside urllib.parse (urlsplit / .port / .hostname - the call site of the finding);
+        urlsplit itself rejects `scheme://<the host get_host computed>/` with ValueError; and the same
+        request with a well-formed Host does not raise. Anything else on these attributes - another
+        class, another call site, a Host urlsplit accepts - stays a violation."""
+        if not (case["k"] == "a" and case["attr"] in URL_ATTRS and "HTTP_HOST" in case["env"] and what == f"Request.{case['attr']} raised ValueError"):
+            return None
+        import traceback
+        from urllib.parse import urlsplit
+
+        from werkzeug.wrappers import Request
+
+        try:
+            run_attr(case["attr"], case["env"], case.get("trusted"))
+            return None  # not reproducible
+        except ValueError as e:
+            if type(e) is not ValueError:
                 return None
-            return "F07d"
-        return None
+            # call site: the frame right below werkzeug.urls.uri_to_iri is urllib.parse (urlsplit itself,
+            # or the .port / .hostname accessors of its result)
+            frames = traceback.extract_tb(e.__traceback__)
+            at = [i for i, f in enumerate(frames) if f.name == "uri_to_iri" and f.filename.replace("\\", "/").endswith("werkzeug/urls.py")]
+            if not at or at[-1] + 1 >= len(frames) or not frames[at[-1] + 1].filename.replace("\\", "/").endswith("urllib/parse.py"):
+                return None
+        except Exception:  # noqa: BLE001
+            return None
+        try:
+            host = Request(mk_environ(case["env"])).host
+        except Exception:  # noqa: BLE001
+            return None
+        try:
+            parts = urlsplit(f"http://{host}/")
+            parts.hostname, parts.port  # noqa: B018
+            return None  # urlsplit accepts this host: not the known family
+        except ValueError:
+            pass
+        env = dict(case["env"])
+        env["HTTP_HOST"] = hs("localhost")
+        try:
+            run_attr(case["attr"], env, case.get("trusted"))
+        except Exception:  # noqa: BLE001
+            return None
+        return "F07d"
 
     def nontrivial(self, case, real_out):
         return real_out not in ("[]", "~", "ok:NoneType", "-|[]", "V:[]", "V:~")
 
     def bucket(self, case, real_out):
         tag = real_out if real_out.startswith(("EXC", "HTTP")) else "value"
+        if case["k"] == "b":
+            return "b:" + case["seq"][0] + ":" + ("HTTP" if "HTTP:" in real_out else tag)
+        if case["k"] == "r":
+            return "r:" + case["name"] + ":" + tag
         return (f"p:{case['name']}" if case["k"] == "p" else "a:" + ("hot" if case["attr"] in ATTR_VAR else "other")) + ":" + tag
 
     def mutate(self, case, rng):
         for _ in range(30):
-            if case["k"] == "p":
+            if case["k"] == "b":
+                yield body_case(rng)
+            elif case["k"] == "r":
+                yield regex_case(rng, [(case["mod"], case["name"])])
+            elif case["k"] == "p":
                 yield {"k": "p", "name": case["name"], "s": hs(hostile(rng))}
             else:
                 env = dict(case["env"])
@@ -843,23 +1264,28 @@ def model_cc_get(d, key, empty, ty):
 
 CHECK = Check(
     prop="C07",
-    gen=["Http"],
-    modules=["WzVerif.Props.C07"],
+    gen=["Http", "RequestGlue", "RequestSurface", "Regexes", "DateExc", "Cookie", "Urlencode", "Containers", "Multipart", "PyFns_Http", "PyFns_Internal", "PyFns_HttpDict", "PyFns_HttpOptions", "PyFns_Etag", "PyFns_Range", "PyFns_Response"],
+    modules=["WzVerif.Props.C07", "WzVerif.Props.C07T"],
     streams=[Hostile()],
     assumptions=[
-        "parse_date (email.utils), Request.url & co (urllib.parse.urlsplit, werkzeug.urls), cookies (C13's model), form/files/data (C01/C02/C10's models) are exercised on the real code only (oracle); the Lean theorems cover the header parsers modelled in Model/Http.lean",
+        "round 3 (Props/C07T): the totality theorems for parse_list_header, parse_set_header, parse_dict_header, parse_cache_control_header, parse_options_header, parse_content_range_header, parse_age, parse_csp_header, parse_etags (texts without LF) and is_resource_modified are restated on the definitions regenerated from the source by tools/py2lean.py (Gen/PyFns_*.lean): the translation keeps every IndexError / ValueError / KeyError / TypeError the Python code could raise as an explicit error arm, and the theorems say no such arm is reachable; modelled, not verified on that route: the regexes (hand models of C06), urllib's parse_http_list / unquote, int(), the CPython string primitives of Util/PyPrelude.lean (validated by stream prelude-kernels in the checks that run it)",
+        "parse_date (email.utils) is a parameter of the attribute theorems; its exception behaviour is pinned by a regenerated table (Gen/DateExc: classes raised over ~41 000 boundary date texts, all caught by the classes read from parse_date's except clause) and watched by the oracle; Request.url & co go through urllib.parse.urlsplit (known finding F07d); cookies / args / Accept / host are C13 / C02 / C17 / C20's models composed in Model/RequestAttrs.lean",
+        "body attributes (form, files, values, data, get_data, json, get_json, stream): the dispatch FormDataParser.parse -> _parse_multipart / _parse_urlencoded, the `except ValueError` fallback, the boundary encoding, strict body decoding and get_json's error translation are modelled (Model/RequestBody.lean) and proved to let only HTTP exceptions out, under two explicit hypotheses: MultiPartParser.parse raises only ValueError subclasses / HTTP exceptions (C01/C02/C10's model is used for it in the driver) and json.loads raises only ValueError subclasses (CPython raises RecursionError on a body of a few thousand '[' - a body, outside this property's quantifier; the stream keeps JSON nesting below 100)",
+        "what the limited input stream (C09) delivers is computed by the harness from Content-Length (first n bytes; ClientDisconnected at the end when fewer are available; nothing when the length is absent or Transfer-Encoding is chunked) and handed to the model as a `Wire`",
+        "the glue facts the body model relies on (dispatch mimetypes, caught classes, codec call sites, parse_qsl arguments, get_part_charset's safe list) and the subclass relation of the exception vocabulary are regenerated from the AST / the live classes (Gen/RequestGlue) and pinned by `request_glue_pinned` / `exception_vocabulary`",
+        "coverage: Gen/RequestSurface lists every public name of a live Request object and every public function of werkzeug.http / sansio.http / sansio.utils; `request_surface_covered` / `http_functions_covered` are decide obligations that each is modelled, raw, or explicitly excluded; the stream enumerates the same live lists",
         "the model's totality theorems quantify over all List Char; the correspondence validates the model on latin-1 text without control characters (the property's quantifier)",
-        "known finding F07d (Host -> urlsplit ValueError); F07a/b/c/e/f/g are repaired and kept as corpus regressions",
-        "a hang is detected by a per-case interval timer (3 s); the generator has a repetition family (prefix + one token x 20..100 + suffix) for super-linear scanners / regexes; after the first hang the stream stops evaluating",
+        "known finding F07d (Host -> urlsplit ValueError) is recognised narrowly: URL attribute, class exactly ValueError, raised in urllib.parse directly below werkzeug.urls.uri_to_iri, urlsplit itself rejects the computed host, and the same request with Host: localhost does not raise; F07a/b/c/e/f/g are repaired and kept as corpus regressions",
+        "a hang is detected by a per-case interval timer (3 s); the generator has a repetition family (prefix + one token x 20..100 + suffix) for super-linear scanners / regexes, and every module-level compiled regex of the request-parsing modules (live enumeration, Gen/Regexes) is timed directly on repetitions over its own alphabet; `regexes_examined` is the decide obligation that none has a nested unbounded quantifier or an alternation under one unless examined; after the first hang the stream stops evaluating",
     ],
     trusted_extra=["CPython str / re / urllib / base64 / int() semantics for the modelled primitives (validated by the stream, not verified)"],
-    quick_budget=9000,
+    quick_budget=15000,
     thorough_budget=150000,
 )
 
 MANIFEST = {
-    "level_text": "Machine-checked Lean 4 theorems `Safe (p s)` for all text s (no exception of any class escapes) for the exception-aware models of parse_dict_header, parse_options_header, parse_range_header, parse_content_range_header, parse_age, parse_cache_control_header + typed accessors, Authorization / WWWAuthenticate.from_header and parse_accept_header, plus termination of the two while-loops; the models are tied to the code by a differential stream of hostile latin-1 header text, and the oracle (value or HTTPException, within a time bound) runs on every listed parser and every public Request attribute of the real code.",
-    "level_note": "Trusted: Lean kernel; extract.py; harness; CPython str/re/urllib/base64/int for modelled primitives. parse_date, urlsplit-based URL attributes, cookies and form parsing are oracle-only here. Known finding F07d.",
+    "level_text": "Machine-checked Lean 4 theorems `Safe (p s)` for all text s (no exception of any class escapes) for the exception-aware models of parse_dict_header, parse_options_header, parse_range_header, parse_content_range_header, parse_age, parse_cache_control_header + typed accessors, Authorization / WWWAuthenticate.from_header and parse_accept_header, plus termination of the two while-loops; one theorem over 24 header-derived Request attributes and one over the 9 body attributes (form, files, values, data, get_data, json, get_json, stream, want_form_data_parsed: value or HTTP exception, the body parsers as hypotheses); decide obligations over regenerated facts (request surface coverage, form glue, exception subclass table, regex shapes, email.utils exception classes); the models are tied to the code by a differential stream of hostile latin-1 header text and hostile Content-Type x body products, and the oracle (value or HTTPException, within a time bound) runs on every listed parser, every public Request attribute and every compiled regex of the real code.",
+    "level_note": "Trusted: Lean kernel; extract.py; harness; CPython str/re/urllib/base64/int for modelled primitives. parse_date (email.utils), json.loads and the multipart parser are parameters with recorded hypotheses; urlsplit-based URL attributes are oracle-only. Known finding F07d.",
     "technique": "Lean 4 proof (exception-aware model, invariants for unguarded indexing, fuel-irrelevance for loops) + model/code correspondence + hostile-input oracle",
     "design_ref": "DESIGN.md section 4, C07",
 }
